@@ -102,3 +102,14 @@ claim("C20",
             "counters beyond MAX_COMPACT_SIZE round-trip byte-for-byte and non-canonical CompactSize forms are rejected. Every leaf count 1..160 is "
             "walked exhaustively per version."),
       note="Trusted: BLAKE2b primitive; real-chain precondition that summed work/counters do not overflow.")
+
+claim("C05",
+      technique="model-based proptest of scan_block against the generating model; structured corruption of valid blocks; differential of the batched wallet path across rayon pool sizes in child processes",
+      text=("Every field of every ScannedBlock (received outputs with account, value, scope, nullifier, position, change flag; spends of exactly the tracked "
+            "nullifiers; all commitments in order with retention marks and one checkpoint per pool; final tree sizes; per-transaction unlinked nullifiers; "
+            "block metadata) is compared with what the model encrypted, for chains with several transactions per block and several pools per transaction, "
+            "1-3 accounts, foreign keys, tracked/untracked/unknown spends, with and without prior metadata. One generated corruption (height, prev hash, each "
+            "tree size, absent metadata, every byte-field length, non-canonical field elements, tx index, txid) must yield the documented error class, never "
+            "a panic, and leave the wallet DB byte-identical when it arrives inside a batch. The batched path is run in child processes with 1, 2 and 5 rayon "
+            "threads incl. blocks above the 100-output batch threshold and must write exactly the model's rows."),
+      note="Trusted: TestFvk helpers that encrypt the outputs; CompactBlock::{hash,prev_hash,height} documented panics are respected. Thread interleavings are sampled, not enumerated. Two server-field panics are known findings.")
